@@ -41,10 +41,10 @@ LEVEL_NOTE = (
     "Not modelled: ResourceProfiler (psutil absent), ProgressBar output, cachey's cost-based eviction policy "
     "(eviction is an arbitrary sub-store), wall-clock values (any non-decreasing clock). The `cachey` package is "
     "replaced by the stub in /verif/pystubs (dict store). Keys are assumed to denote the same value in every "
-    "computation that shares them (dask's own assumption). OS thread timing not modelled. StartOK hypothesis as C01.")
+    "computation that shares them (dask's own assumption). OS thread timing not modelled.")
 TECHNIQUE = "Lean 4 proof over folds of the scheduler callback log + differential correspondence with the real Profiler / Cache callbacks"
 ASSUMPTIONS = ["default_timer is non-decreasing", "equal keys denote equal values across computations sharing a Cache",
-               "StartOK (see C01)"]
+               ]
 TRUSTED = ["the cachey stub of /verif/pystubs (dict store with put/data)"]
 
 
